@@ -1,0 +1,225 @@
+//! Verification event tap. Compiled only with `--cfg anydb_verif`.
+//!
+//! A process-global callback receives one [`Event`] per instrumented site. With no
+//! callback installed every site costs one relaxed atomic load. The callback runs on
+//! the thread that hit the site, *before* the instrumented action takes place (unless
+//! the event says otherwise), so a controller can park the thread there.
+
+use std::sync::{
+    Arc, RwLock,
+    atomic::{AtomicBool, AtomicUsize, Ordering},
+};
+
+#[derive(Debug, Clone, Copy, PartialEq, Eq, Hash, PartialOrd, Ord)]
+pub enum LockMode {
+    Read,
+    Write,
+    Mutex,
+}
+
+#[derive(Debug, Clone, Copy, PartialEq, Eq, Hash, PartialOrd, Ord)]
+pub enum FileKind {
+    Data,
+    Regions,
+}
+
+/// `(is_locked, is_locked_exclusive)` of the lock at `addr`.
+pub type Probe = fn(usize) -> (bool, bool);
+
+#[derive(Debug, Clone, Copy)]
+pub enum Event {
+    /// About to acquire a lock (blocking).
+    Lock {
+        class: &'static str,
+        mode: LockMode,
+        addr: usize,
+        probe: Probe,
+    },
+    /// About to copy `len` bytes from `src` into the mapping of `file` at `off`.
+    MmapWrite {
+        file: FileKind,
+        off: usize,
+        len: usize,
+        src: *const u8,
+    },
+    /// In-place write through a raw pointer has just happened (`batch_write_each`).
+    MmapWritten {
+        file: FileKind,
+        off: usize,
+        len: usize,
+        src: *const u8,
+    },
+    /// File length is about to change.
+    SetLen { file: FileKind, len: usize },
+    FlushAsync {
+        file: FileKind,
+        off: usize,
+        len: usize,
+    },
+    /// `sync_data` is about to be issued / has returned.
+    SyncBegin { file: FileKind },
+    SyncEnd { file: FileKind },
+    Punch { off: usize, len: usize },
+    /// Bytes of the data file are about to be read on behalf of a region.
+    /// `off`/`len` are relative to `region_start`; `region_len` is `meta().len()` now
+    /// (usize::MAX when the site cannot name its region).
+    Access {
+        kind: &'static str,
+        region_start: usize,
+        region_len: usize,
+        off: usize,
+        len: usize,
+    },
+    /// A shared atomic is about to be loaded / stored.
+    Atomic {
+        name: &'static str,
+        store: bool,
+        value: usize,
+    },
+    /// Named program point.
+    Point(&'static str),
+    /// A background thread was spawned (emitted by the spawning thread, after spawn).
+    Spawned { token: usize },
+    /// First / last action of a background thread.
+    ThreadStart { token: usize },
+    ThreadEnd { token: usize },
+    /// About to join the background thread `token`.
+    Join { token: usize },
+    /// `bg_sleep` reached.
+    BgSleep,
+}
+
+unsafe impl Send for Event {}
+unsafe impl Sync for Event {}
+
+type Callback = Arc<dyn Fn(&Event) + Send + Sync>;
+
+static ENABLED: AtomicBool = AtomicBool::new(false);
+static CALLBACK: RwLock<Option<Callback>> = RwLock::new(None);
+/// When set, `bg_sleep` returns immediately after its event instead of waiting.
+static SKIP_BG_SLEEP: AtomicBool = AtomicBool::new(false);
+static NEXT_TOKEN: AtomicUsize = AtomicUsize::new(1);
+
+pub fn install(cb: Callback) {
+    *CALLBACK.write().unwrap() = Some(cb);
+    ENABLED.store(true, Ordering::SeqCst);
+}
+
+pub fn uninstall() {
+    ENABLED.store(false, Ordering::SeqCst);
+    *CALLBACK.write().unwrap() = None;
+}
+
+pub fn set_skip_bg_sleep(v: bool) {
+    SKIP_BG_SLEEP.store(v, Ordering::SeqCst);
+}
+
+#[inline]
+pub fn skip_bg_sleep() -> bool {
+    SKIP_BG_SLEEP.load(Ordering::Relaxed)
+}
+
+pub fn next_token() -> usize {
+    NEXT_TOKEN.fetch_add(1, Ordering::Relaxed)
+}
+
+#[inline(always)]
+pub fn enabled() -> bool {
+    ENABLED.load(Ordering::Relaxed)
+}
+
+#[inline(always)]
+pub fn emit(ev: Event) {
+    if ENABLED.load(Ordering::Relaxed) {
+        emit_slow(&ev);
+    }
+}
+
+#[cold]
+fn emit_slow(ev: &Event) {
+    let cb = CALLBACK.read().unwrap().clone();
+    if let Some(cb) = cb {
+        cb(ev);
+    }
+}
+
+pub fn probe_rwlock<T>(addr: usize) -> (bool, bool) {
+    let l = unsafe { &*(addr as *const parking_lot::RwLock<T>) };
+    (l.is_locked(), l.is_locked_exclusive())
+}
+
+pub fn probe_mutex<T>(addr: usize) -> (bool, bool) {
+    let l = unsafe { &*(addr as *const parking_lot::Mutex<T>) };
+    let b = l.is_locked();
+    (b, b)
+}
+
+#[inline(always)]
+pub fn lock_rw<T>(class: &'static str, mode: LockMode, lock: &parking_lot::RwLock<T>) {
+    emit(Event::Lock {
+        class,
+        mode,
+        addr: lock as *const _ as usize,
+        probe: probe_rwlock::<T>,
+    });
+}
+
+#[inline(always)]
+pub fn lock_mutex<T>(class: &'static str, lock: &parking_lot::Mutex<T>) {
+    emit(Event::Lock {
+        class,
+        mode: LockMode::Mutex,
+        addr: lock as *const _ as usize,
+        probe: probe_mutex::<T>,
+    });
+}
+
+/// Test-sized stand-in for a byte threshold constant: a zero-sized `Copy` value that
+/// behaves like the production `usize` (1 GiB) in `/`, `div_ceil` and comparisons unless a
+/// harness stores another value in its cell. `WHICH` selects the cell.
+#[derive(Debug, Clone, Copy)]
+pub struct Threshold<const WHICH: usize>;
+
+pub const MAX_CACHE_SIZE_CELL: usize = 0;
+pub const MMAP_CROSSOVER_CELL: usize = 1;
+
+static THRESHOLDS: [AtomicUsize; 2] = [
+    AtomicUsize::new(1024 * 1024 * 1024),
+    AtomicUsize::new(1024 * 1024 * 1024),
+];
+
+pub fn set_threshold(which: usize, v: usize) {
+    THRESHOLDS[which].store(v, Ordering::SeqCst);
+}
+
+pub fn threshold(which: usize) -> usize {
+    THRESHOLDS[which].load(Ordering::Relaxed)
+}
+
+impl<const WHICH: usize> Threshold<WHICH> {
+    #[inline]
+    pub fn get(self) -> usize {
+        threshold(WHICH)
+    }
+    #[inline]
+    pub fn div_ceil(self, rhs: usize) -> usize {
+        self.get().div_ceil(rhs)
+    }
+}
+
+impl<const WHICH: usize> PartialEq<Threshold<WHICH>> for usize {
+    fn eq(&self, other: &Threshold<WHICH>) -> bool {
+        *self == other.get()
+    }
+}
+impl<const WHICH: usize> PartialOrd<Threshold<WHICH>> for usize {
+    fn partial_cmp(&self, other: &Threshold<WHICH>) -> Option<std::cmp::Ordering> {
+        self.partial_cmp(&other.get())
+    }
+}
+impl<const WHICH: usize> std::ops::Div<usize> for Threshold<WHICH> {
+    type Output = usize;
+    fn div(self, rhs: usize) -> usize {
+        self.get() / rhs
+    }
+}
